@@ -19,8 +19,12 @@ pub trait Interp1DStrategy: Sized {
     spec fn strat_wf(&self, i: &Interp1D<Self>) -> bool;
     /// queries the strategy is defined on (everything except NaN-with-extrapolation, which panics)
     spec fn query_ok(&self, x: T) -> bool;
+    /// whatever the strategy promises about one call (opaque to Interp1D): used to state that the entry points
+    /// hand the query, the target and the result through unchanged (C18)
+    spec fn interp_post(&self, i: &Interp1D<Self>, target_before: Seq<T>, x: T, r: Result<(), InterpolateError>, target_after: Seq<T>) -> bool;
     fn interp_into(&self, interpolator: &Interp1D<Self>, target: &mut Lanes, x: T) -> (r: Result<(), InterpolateError>)
-        requires interpolator.wf(), self.strat_wf(interpolator), self.query_ok(x);
+        requires interpolator.wf(), self.strat_wf(interpolator), self.query_ok(x)
+        ensures self.interp_post(interpolator, old(target)@, x, r, final(target)@);
 }
 
 /// lane j of the target holds the Linear interpolant of rows i, i+1 at x (value-level, see lin_ok)
